@@ -399,8 +399,9 @@ def main(argv):
                         cov['drift'] += 1
                     if not ok:
                         mismatches.append((direction, c, m))
-            cov['evaluations'] += n
+            cov['evaluations'] += n + int(s.get('oracle_only', 0))
             cov['traces_validated_against_impl'] += n
+            cov['oracle_only_evaluations'] = cov.get('oracle_only_evaluations', 0) + int(s.get('oracle_only', 0))
             cov['families'][f['name']] = dict(cases=n, wall_s=round(r['wall_s'], 2))
     cov['distinct_nontrivial'] = len(distinct)
 
